@@ -171,9 +171,10 @@ CLAIMED["C19"] = dict(
          "include, exclude) is under a discharged contract (pyvc + z3): the pool is a duplicate-free stack of allocatable non-reserved registers, a popped "
          "register is no longer available, infinite registers get strictly increasing indices; ValueAllocator.allocate_value / free_value are under contract on top "
          "of it (an unallocated value gets a register popped from the pool - hence held by no live value -, an allocated one is left alone, free_value "
-         "returns exactly the value's own allocatable register). Exploration is the honest level for the property as a whole.",
-    note="Bounded stand-in for the interference statement, never counted as proved; the remaining ValueAllocator methods (allocate_values_same_reg, new_type_for_value), BlockNaiveAllocator, per-op "
-         "allocate_registers and the x86 allocator are not under contract; one pool at a time in the RegisterStack proofs.",
+         "returns exactly the value's own allocatable register), and the per-op step HasRegisterConstraints.allocate_registers (for ops with <= 3 results: no register of a "
+         "result's class is released before that result has its register, every result ends allocated). Exploration is the honest level for the property as a whole.",
+    note="Bounded stand-in for the interference statement, never counted as proved; the remaining ValueAllocator methods (allocate_values_same_reg), BlockNaiveAllocator, the overriding "
+         "allocate_registers of loop / call ops and the x86 allocator are not under contract; allocate_registers is bounded in the number of in/out values (loops unrolled); one pool at a time in the RegisterStack proofs.",
     design="§4 C19",
     technique="bounded runtime-contract check on a register-machine model (stand-in) + discharged contracts on RegisterStack (representation invariant) and ValueAllocator.allocate_value/free_value",
 )
